@@ -49,7 +49,7 @@ ASSUMPTIONS = [
 
 
 def budget(tier):
-    return int(os.environ.get("VERIF_BUDGET", 0)) or {"quick": 700, "thorough": 12000}[tier]
+    return int(os.environ.get("VERIF_BUDGET", 0)) or {"quick": 2500, "thorough": 30000}[tier]
 
 
 # ---------------------------------------------------------------- generation
